@@ -151,7 +151,7 @@ fn run_case(ctx: &mut Ctx, idx: u64) {
         let pol = if step < ext { if rng.chance(1, 2) { Policy::Extending } else { Policy::Uniform } } else { Policy::Closing };
         let Some(t) = walker::choose(&mut rng, &mask, &v, pol) else { break };
         if !m.consume(t) {
-            if m.is_resource_stop() {
+            if m.is_resource_stop() || crate::tp::accepted_with_relaxed_limits(&v, None, &g, &hist, t) {
                 ctx.rep.inconclusive("resource_stop");
                 return;
             }
